@@ -235,6 +235,17 @@ def run(ctx):
             items.append(('%s@cut%d' % (name, cut), A[:cut], [tuple(h)]))
             ncut += 1
     ctx.cov['truncated_archives'] = ncut
+    # entries whose stored path consists of '.', '..', empty components or separators only (it collapses to nothing or to '/'), as
+    # directory entries and as files; whatever the reader decides about them, it must give their memory back.  Never extracted.
+    nodd = 0
+    for lvl in (0, 1, 2, 3):
+        for pth in (b'./', b'../', b'sub/../', b'a/./', b'/', b'//', b'.//', b'a/../../', b'./././', b'sub/../../x/../'):
+            ms = [arc.dir_member(pth, level=lvl, perms=0o40755), arc.file_member(rnd, '-lh0-', b'f', size=3, level=lvl, path=pth),
+                  arc.file_member(rnd, '-lh5-', b'after', size=9, level=2)]
+            for keep in ((0, 2), (1, 2), (0, 1, 2)):
+                items.append(('odd-path-L%d-%s' % (lvl, pth.decode()), arc.archive([ms[k] for k in keep]), [('N', 'N', 'N', 'N'), ('N', 'C', 'N', 'C', 'N', 'RA', 'N')]))
+                nodd += 1
+    ctx.cov['odd_path_archives'] = nodd
     ncoll = 0
     for name, members in collision_archives(rnd, ctx.tier):
         full = []
@@ -266,7 +277,7 @@ def run(ctx):
     ctx.cov['exhaustive'] = True
     ctx.cov['exhaustive_subspace'] = 'for every (archive, history) run: every k in 1..N where N = allocations made by the library in the fault-free run'
     ctx.cov['rule'] = ('(archive, history, policy, stream kind, k) tuples; histories obey the C15 side conditions and include every prefix of full '
-                       'walks (abandon anywhere; archives cut at every offset; headers repeating an extended header of the same type two or three times; archives whose entries collide on disk - the same name twice or as file/directory/dangerous/safe symlink - so '
+                       'walks (abandon anywhere; archives cut at every offset; entries whose path is made of dots and separators only; headers repeating an extended header of the same type two or three times; archives whose entries collide on disk - the same name twice or as file/directory/dangerous/safe symlink - so '
                        'that extract calls find unexpected things in place, also while a re-presented directory or deferred symlink is current), extraction with header paths '
                        'and explicit names; k enumerated over all allocations; distinct by the whole tuple; non-trivial = history longer than one op '
                        'or any injected run')
